@@ -836,7 +836,7 @@ func c14E2E(x *vx.X) vx.Result {
 
 // ---------------------------------------------------------------------------------------------
 
-// c14Scenario is one part of the check.  The list is extensible (part (b): schedules of the delay buffer).
+// c14Scenario is one part of the check.  The list is extensible.
 type c14Scenario struct {
 	Name string
 	Run  func(c *vx.Check, extra map[string]interface{}) vx.Part
@@ -846,6 +846,12 @@ var c14Scenarios = []c14Scenario{
 	{Name: "programs", Run: c14ProgramsScenario},
 	{Name: "e2e", Run: c14E2EScenario},
 }
+
+// C14ExtraParts lets another file of this package (part (b): schedules of the delay buffer under the controlled
+// scheduler) contribute parts: each function returns fully explored vx.Parts (Scenario, Stats, Exec), which are
+// appended before c.Finish.  In replay mode the functions are called with replay=true and may return parts
+// without Stats; the part whose Scenario matches the replay file is used.  Register from an init().
+var C14ExtraParts []func(c *vx.Check, replay bool) []vx.Part
 
 func c14E2EScenario(c *vx.Check, extra map[string]interface{}) vx.Part {
 	exec := func(p []vx.Point) vx.Result { return vx.SafeRun(c14E2E, p) }
@@ -936,6 +942,19 @@ func TestVerifC14(t *testing.T) {
 			}
 			os.Exit(code)
 		}
+		for _, f := range C14ExtraParts {
+			for _, part := range f(c, true) {
+				if part.Scenario != rf.Scenario || part.Exec == nil {
+					continue
+				}
+				r := part.Exec(rf.Prefix)
+				st := vx.NewStats()
+				st.Absorb(rf.Prefix, &r, 0)
+				fmt.Printf("replay scenario=%s outcome=%q violations=%d\n", rf.Scenario, r.Outcome, len(r.Violations))
+				part.Stats = st
+				os.Exit(c.Finish([]vx.Part{part}, nil))
+			}
+		}
 		fmt.Println("TOOL-ERROR unknown scenario in replay file:", rf.Scenario)
 		os.Exit(2)
 	}
@@ -946,6 +965,13 @@ func TestVerifC14(t *testing.T) {
 			continue
 		}
 		parts = append(parts, sc.Run(c, extra))
+	}
+	for _, f := range C14ExtraParts {
+		for _, part := range f(c, false) {
+			if only == "" || only == part.Scenario {
+				parts = append(parts, part)
+			}
+		}
 	}
 	code := c.Finish(parts, extra)
 	if c14TheEnv != nil {
